@@ -455,6 +455,17 @@ func (rs *ResourceSubscription) handleResetResource(t *Throttle) {
 
 	rs.resetting = true
 
+	// The get request counts as a user of the resource until it is answered,
+	// so that the event subscription is kept while the request is waiting in
+	// the throttle or in flight.
+	if rs.e.count == 0 {
+		rs.e.cache.unsubQueue.Remove(rs.e)
+	}
+	rs.e.count++
+	if rs.e.cache.metrics != nil {
+		rs.e.cache.metrics.CacheSubscriptions.Add(1)
+	}
+
 	// Create request
 	subj := "get." + rs.e.ResourceName
 	payload := codec.CreateGetRequest(rs.query)
@@ -465,6 +476,7 @@ func (rs *ResourceSubscription) handleResetResource(t *Throttle) {
 				rs.e.Enqueue(func() {
 					rs.resetting = false
 					rs.processResetGetResponse(data, err)
+					rs.e.removeCount(1)
 				})
 				t.Done()
 			})
@@ -474,6 +486,7 @@ func (rs *ResourceSubscription) handleResetResource(t *Throttle) {
 			rs.e.Enqueue(func() {
 				rs.resetting = false
 				rs.processResetGetResponse(data, err)
+				rs.e.removeCount(1)
 			})
 		})
 	}
